@@ -25,13 +25,30 @@ CFG = {
             "property on the observation (101 + Sec-WebSocket-Accept = base64(SHA-1(k ++ GUID)) computed in Coq + echo "
             "unmodified + handler entered once; or 4xx + not upgraded + handler not entered) and compares with the "
             "model (status, the three response fields after hyper's Connection rewriting, follow-up behaviour). "
+            "Large-scope slice (group 'large', deterministic, both transports, dealt evenly among the other cases; tags "
+            "large:<dimension>:<n>): every size-like dimension is pushed across 15/16/17 ... 8191/8192/8193 and beyond: "
+            "Sec-WebSocket-Key length (15..8193 and 16385 in quick, also 65537 in thorough - capped there because the "
+            "Gallina SHA-1 costs ~40 us per byte and runs twice per case; keys beyond 4097 bytes repeat a random 61-byte "
+            "period), number of Connection / Upgrade list elements (to 8193) and the position of the wanted one (1st, "
+            "16th, 17th, 257th, last), number of repeated Connection / Upgrade / Sec-WebSocket-Version / -Key / "
+            "-Protocol lines (17, 65, 96; thorough 15..96), total request fields 99/100/101/102 (thorough to 201; "
+            "hyper holds 100, one more is its own 431 + close and that is the expectation), length of one list element "
+            "and of the whitespace around elements (257/4097/8193; thorough 15..8193 and 65537), payload through the "
+            "pipe in one write (63 KiB, 65535/65536/65537, 65 KiB, 1 MiB-1/1 MiB/1 MiB+1; thorough 16 MiB-1/16 MiB/"
+            "16 MiB+1), number of writes (4097 one-byte writes, 1025 x 17, 257 x 4097; thorough 16385 and 65537 "
+            "one-byte writes), bytes sent in the same write as the handshake (0, 1, 4096, 65537; thorough to 262145). "
+            "Judged by the same model and specification as every other case. Abstractions, both sound and complete: "
+            "payloads above 300 bytes are compared byte for byte in the harness and handed to Coq as (bytes sent, "
+            "bytes received, first differing offset, clean end of stream) - the judge demands equal lengths, no "
+            "differing offset and a clean end; long periodic stretches of a header value are written as (rep period "
+            "count) in the Coq case by a printer that decodes its own term and compares it with the bytes sent. "
             "A 101 after which the pipe is dead (no echo, no clean end of stream, handler not "
             "entered) is a violation on either transport. Non-trivial: at least one header line; distinct by case "
             "content (transport included).",
     "exhaustive_note": "the subset grid (every combination of absent/right/wrong-valued Connection, Upgrade, "
                        "Sec-WebSocket-Version, Sec-WebSocket-Key over the listed variants, 882 requests) and the key "
                        "lengths 0..130 (every SHA-1 padding boundary of key ++ GUID) are enumerated completely in both "
-                       "tiers; key bytes, list spellings and payloads are sampled",
+                       "tiers; the large-scope slice is a fixed list of sizes around the round numbers, not a sample; key bytes, list spellings and payloads are sampled",
     "trusted_base": COMMON_TB + [
         "sha1 0.10.6 (library): digest equality with the Gallina SHA-1 for ALL keys is a differential test, not a "
         "theorem; it is exercised on every 101 of every run, including every padding boundary (partial)",
@@ -44,6 +61,9 @@ CFG = {
         "its connection handed to hyper::upgrade::on's future, read-buffer leftovers included; a request whose "
         "Connection lines disable keep-alive gets the response's Connection field replaced by 'close' "
         "(req_close / set_connection_close)",
+        "hyper's request parser holds 100 field lines (DEFAULT_MAX_HEADERS); a request with more is answered 431 by "
+        "hyper and closed (Run_C20.v too_many_fields; exercised at 100 and 101 fields on both transports); header "
+        "blocks stay far below hyper's 417792-byte read-buffer limit",
         "hyper's Upgraded + hyper_util TokioIo as a transparent byte pipe, tokio::spawn running the task, "
         "tokio::io::copy in the harness's echo handler (runtime behaviour: sampled, not modelled beyond identity)",
         "rustls 0.22 / tokio-rustls 0.25 (client side of the TLS cases, and inside dropshot's TLS acceptor): "
